@@ -24,7 +24,8 @@ ASSUMPTIONS = [
 def RULE(tier):
     return ("cases = (member of an LC class, connectivity, API kind in {prepare, readout, compress}); >= %d random "
             "members (random orbit graph x 24^n local Cliffords x signs x generating set x format) for every one of "
-            "the 5,962 (configuration, class) pairs; non-trivial = entangled class; distinct = distinct "
+            "the 5,962 (configuration, class) pairs, plus request sequences around anchors (tableau neighbours, generator siblings, "
+            "one-qubit variants); non-trivial = entangled class; distinct = distinct "
             "(n, connectivity, format, canonical signed group)" % (2 if tier == "quick" else 20))
 
 
